@@ -31,7 +31,7 @@ PROPS = {
     ),
     'C01': dict(
         units=[('ser', r'(write|payload_sizes|gecko_codes|game_start|game_end|PayloadSizes|frame_counts|C01|Frame::len)'),
-               ('codec_imm', r'(write|size|from|emit|encode_decode|lemma_)'),
+               ('codec_imm', r'(write|size|from|emit|encode_decode|lemma_|C12\.finished_columns)'),
                ('codec_mut', r'(read_push|with_capacity|push_null)'),
                ('event', r'(C04\.|C03\.|C12\.|C08\.sized_event_accepted|parse_event__(pre|post|start|item|end|other|splitter)|frame_close$|frame_open)'),
                ('reader', r'(^read$|^parse_start|^parse_header|^parse_payloads|^parse_game_start|expect_bytes|C12\.|C01\.|C08\.)')],
@@ -49,7 +49,7 @@ PROPS = {
     ),
     'C04': dict(
         units=[('event', r'(parse_event|frame_close|frame_open|last_id|with_capacity|push_null|Data::len|PortData::len|Frame::len|lemma_|C04)', r'(parse_event__(pre|post|start|item|end)|frame_close|frame_open)$'),
-               ('codec_mut', r'(push_null|with_capacity)'), ('reader', r'(C04)')],
+               ('codec_mut', r'(push_null|with_capacity)'), ('reader', r'(C04)'), ('codec_imm', r'(C12\.finished_columns|from__(Data|PortData|Frame)$)')],
         kani=[],
     ),
     'C05': dict(
@@ -71,7 +71,7 @@ PROPS = {
         kani=[],
     ),
     'C12': dict(
-        units=[('reader', r'(C12|^read$|^parse_header|^parse_start|^parse_metadata|from__partial_game)'), ('event', r'(C12|parse_event__total|frame_open)'), ('ubjson', r'(C12|to_utf8)')],
+        units=[('reader', r'(C12|^read$|^parse_header|^parse_start|^parse_metadata|from__partial_game)'), ('event', r'(C12|parse_event__total|frame_open|ParseState::bytes_read$|ParseState::frames$|(len|start|end|gecko_codes)__view$)'), ('ubjson', r'(C12|to_utf8)'), ('codec_imm', r'(C12|from__(Data|PortData|Frame)$)')],
         kani=[],
     ),
     'C10': dict(
@@ -113,7 +113,7 @@ PROPS = {
     ),
     'C13': dict(
         units=[('codec_mut', r'(transpose_one)'), ('codec_imm', r'(transpose_one)'),
-               ('event', r'(transpose_one|frame__view|C13)'), ('ser', r'(transpose_one|frame__view|C13)')],
+               ('event', r'(transpose_one|frame__view|C13)'), ('ser', r'(transpose_one|__view$|C13)')],
         kani=[],
     ),
 }
